@@ -26,7 +26,22 @@ def work(i):
         out.append('%s whole-unsafe %s thread=%d' % (os.path.basename(p), h, i))
 
 
+def tracer(frame, event, arg):
+    # give the other threads a turn at every line of the token modules (where the lazily initialised tables are built)
+    if 'excel2pycl/src/tokens' not in frame.f_code.co_filename and 'excel2pycl/src/lexer' not in frame.f_code.co_filename:
+        return None
+
+    def local(frame, event, arg):
+        if event == 'line':
+            time.sleep(0)
+        return local
+    return local
+
+
+import time  # noqa: E402
 sys.setswitchinterval(1e-6)
+if os.environ.get('E2P_COLD_TRACE') == '1':
+    threading.settrace(tracer)
 ts = [threading.Thread(target=work, args=(i,)) for i in range(4)]
 [t.start() for t in ts]
 [t.join() for t in ts]
